@@ -592,6 +592,9 @@ void tuple_pair(int x)
     std::sort(sl.begin(), sl.end());
     std::sort(sw.begin(), sw.end());
     chk(got == w12 && sl == sw, "tuple::map|result", [&] { return "tuple::map gave " + show(got) + " with calls " + show(log) + ", expected " + show(w12); });
+    // the statement lists tuple::map among the helpers that visit elements in order; the
+    // implementation guarantees it (braced initialisation in tuple::init)
+    chk(log == w12, "tuple::map|call-order", [&] { return "tuple::map called its function in the order " + show(log) + ", expected " + show(w12); });
     auto const mr = fcppt::tuple::map(make_t1<S1>(x), [](auto &&v) { return std::remove_cvref_t<decltype(v)>(std::forward<decltype(v)>(v)); });
     chk(flatten(mr) == w1, "tuple::map|result-rvalue", [&] { return "tuple::map(rvalue, move) gave " + show(flatten(mr)); });
   }
